@@ -618,6 +618,292 @@ class ResultModel:
         return [('ok', s1, fut_val(recv)), ('raise', s2, e), ex.raise_new(st.fork(), 'TimeoutError')]
 
 
+# ================================================================ SocketClient.stream: order preserving (feeder thread + polling consumer)
+from pyvc.models import FutureSym, fut_ok, fut_val, fut_exc, Future, FutureCtor, Source       # noqa: E402
+s_src = z3.Function('stream_src_at', z3.IntSort(), Val)
+enq_ok = z3.Function('client_enqueue_ok', Val, Val, z3.BoolSort())            # self._enqueue(path, x): returns the request's future, or raises
+enq_fut = z3.Function('client_enqueue_future', Val, Val, Val)
+enq_exc = z3.Function('client_enqueue_exc', Val, Val, Val)
+NOMORE = z3.Const('nomore_marker', Val)
+
+
+class PutInQueue(Unit):
+    """put_in_queue(q, x, stop_event): True iff x was put -- exactly once; False only when the stop event is set, and then nothing was put."""
+    prop = 'C18'
+    file = F
+    qual = 'put_in_queue'
+    canaries = (('reports success without having put', '            q.put(x, timeout=timeout)\n            return True', '            return True', ''),
+                ('gives up on a full queue although nobody asked to stop', '            if stop_event.is_set():\n                return False', '            return False', ''))
+
+    def setup(self, ex):
+        st = St()
+        self.q = QueueWriter(ex, 'q')
+        self.q.init(st)
+        self.x = z3.Const('x', Val)
+        self.stop = Event(ex, 'stop_event')
+        self.stop.init(st)
+        st.env.update(q=self.q, x=self.x, stop_event=self.stop, timeout=z3.RealVal('0.1'))
+        st.ghost['put_x'] = z3.IntVal(0)
+        return st
+
+    def on_put(self, ex, st, q, k, item, node):
+        ex.oblige(st, f'line {node.lineno}: what is put is x', box(ex, item) == self.x)
+        st.ghost['put_x'] = st.ghost['put_x'] + 1
+
+    @property
+    def loops(self):
+        return {0: LoopSpec(inv=lambda s, ex: s.ghost['put_x'] == 0)}
+
+    def post(self, ex, outs):
+        for k, s, p in outs:
+            if k in ('normal', 'return'):
+                r = box(ex, p)
+                ex.oblige(s, 'exit: returns True after exactly one put of x; returns False only when the stop event is set, without having put anything',
+                          z3.Or(z3.And(r == V.boolv(z3.BoolVal(True)), s.ghost['put_x'] == 1), z3.And(r == V.boolv(z3.BoolVal(False)), s.ghost['put_x'] == 0, self.stop.get(s, 'flag'))))
+            else:
+                ex.oblige(s, 'exit: raises nothing', False)
+
+
+class StreamSource(Source):
+    def pull(self, ex, st, node):
+        outs = []
+        for kind, s, x in super().pull(ex, st, node):
+            if kind == 'item':
+                s.assume(x == s_src(z3.Length(self.seen(s)) - 1))
+            outs.append((kind, s, x))
+        return outs
+
+
+def stream_item(k, z, f, t0):
+    """feeder guarantee for item #k: (k-th element, ITS OWN future, time stamp)"""
+    return z == V.tup(V.seq_of([s_src(k), f, t0]))
+
+
+def stream_fut_spec(path, x, f, return_exc):
+    return z3.If(enq_ok(path, x), f == enq_fut(path, x), z3.And(return_exc, z3.Not(fut_ok(f)), fut_exc(f) == enq_exc(path, x)))
+
+
+class StreamFeed(Unit):
+    prop = 'C18'
+    file = F
+    qual = 'SocketClient.stream.<locals>._enqueue'
+    expected_exits = ('normal', 'raise')
+    assumed_contracts = ('put_in_queue: unit C18:put_in_queue', 'self._enqueue: unit C18:SocketClient._enqueue')
+    canaries = (('element enqueued with the future of the previous one', 'if not put_in_queue(tt, (x, fut, t0), to_shutdown):', 'if not put_in_queue(tt, (x, prev if prev is not None else fut, t0), to_shutdown):\n                    return\n                prev = fut\n                if False:', 'own future'),
+                ('end marker not sent', '            put_in_queue(tt, nomore, to_shutdown)', '            pass', ''),
+                ('request sent under another path', 'fut = en(path, x, timeout=et)', "fut = en('/', x, timeout=et)", ''))
+
+    def setup(self, ex):
+        st = St()
+        self.src = StreamSource(ex, 'data', may_raise=('Exception',))
+        self.src.init(st)
+        self.path = z3.Const('path', Val)
+        self.rexc = z3.Bool('return_exceptions')
+        self.stop = Event(ex, 'to_shutdown')
+        self.stop.init(st)
+        self.tasks = z3.Const('tasks_queue', Val)
+        st.ghost['puts'] = z3.IntVal(0)
+        st.ghost['terminal_put'] = z3.BoolVal(False)
+        st.ghost['gave_up'] = z3.BoolVal(False)
+        st.assume(V.is_ref(NOMORE))
+
+        def enqueue(e, s, a, k, n):
+            pth, x = box(e, a[0]), box(e, a[1])
+            e.oblige(s, f'line {n.lineno}: the request goes to the stream\'s own path with the caller\'s enqueue timeout', z3.And(pth == self.path, box(e, k.get('timeout')) == z3.Const('enqueue_timeout', Val)))
+            s1 = s.fork().assume(enq_ok(pth, x))
+            exc = enq_exc(pth, x)
+            s2 = s.fork().assume(z3.Not(enq_ok(pth, x)), V.isinst(exc, 'Exception'), *V.cls_facts(exc))
+            return [('ok', s1, enq_fut(pth, x)), ('raise', s2, exc)]
+
+        def put_in_queue(e, s, a, k, n):
+            e.oblige(s, f'line {n.lineno}: items go to the stream\'s own queue, under the client\'s shutdown event', z3.And(box(e, a[0]) == self.tasks, z3.BoolVal(unbox_handle(e, a[2]) is self.stop)))
+            item = unbox_handle(e, a[1])
+            kk = s.ghost['puts']
+            e.oblige(s, f'line {n.lineno}: nothing is put after the end marker or after giving up', z3.And(z3.Not(s.ghost['terminal_put']), z3.Not(s.ghost['gave_up'])))
+            seen = self.src.seen(s)
+            if isinstance(item, PyTuple) and len(item.items) == 3:
+                x, f = box(e, item.items[0]), item.items[1]
+                fu = unbox_handle(e, f)
+                if isinstance(fu, Future):
+                    fv = fu.val()
+                    s = s.fork().assume(z3.Implies(fu.get(s, 'done'), fut_ok(fv) == z3.Not(fu.get(s, 'is_exc'))), z3.Implies(z3.And(fu.get(s, 'done'), fu.get(s, 'is_exc')), fut_exc(fv) == fu.get(s, 'val')))
+                    e.oblige(s, f'line {n.lineno}: a future made by the feeder is already resolved', fu.get(s, 'done'))
+                    f = fv
+                e.oblige(s, f'line {n.lineno}: item #k is (k-th element of the data, ITS OWN future -- the one the client\'s enqueue returned for it, or a pre-failed one carrying its enqueue error when exceptions are returned -- , time stamp)',
+                         z3.And(kk == z3.Length(seen) - 1, x == s_src(kk), stream_fut_spec(self.path, x, box(e, f), self.rexc)))
+                term = False
+            else:
+                e.oblige(s, f'line {n.lineno}: the end marker is put only after the data is exhausted, having put one item per element', z3.And(box(e, a[1]) == NOMORE, self.src.done(s), z3.Not(self.src.failed(s)), kk == z3.Length(seen)))
+                term = True
+            s1 = s.fork()
+            s1.ghost['puts'] = kk + 1
+            if term:
+                s1.ghost['terminal_put'] = z3.BoolVal(True)
+            s2 = s.fork()
+            self.stop.set(s2, 'flag', z3.BoolVal(True))
+            s2.ghost['gave_up'] = z3.BoolVal(True)
+            return [('ok', s1, z3.BoolVal(True)), ('ok', s2, z3.BoolVal(False))]
+        me = Rec(ex, 'self', immutable=True, methods={'_enqueue': Fn(enqueue)}).init(st, _to_shutdown=self.stop)
+        st.cells.update(self=me, data=self.src, path=self.path, tasks=self.tasks, nomore=NOMORE, enqueue_timeout=z3.Const('enqueue_timeout', Val), return_exceptions=self.rexc)
+        ex.globals['put_in_queue'] = Fn(put_in_queue)
+        ex.globals['concurrent.futures.Future'] = FutureCtor()
+        ex.globals['perf_counter'] = Fn(lambda e, s, a, k, n: [('ok', s, fresh('t0', z3.RealSort()))])
+        return st
+
+    @property
+    def loops(self):
+        return {0: LoopSpec(inv=lambda s, ex: z3.And(s.ghost['puts'] == z3.Length(self.src.seen(s)), z3.Not(s.ghost['terminal_put']), z3.Not(s.ghost['gave_up']), z3.Not(self.src.failed(s))))}
+
+    def post(self, ex, outs):
+        for k, s, p in outs:
+            if k in ('normal', 'return'):
+                ex.oblige(s, 'exit: ends after the end marker (all elements put, data exhausted), or having given up because the client is shutting down',
+                          z3.Or(z3.And(s.ghost['terminal_put'], s.ghost['puts'] == z3.Length(self.src.seen(s)) + 1), z3.And(s.ghost['gave_up'], self.stop.get(s, 'flag'))))
+            else:
+                x = V.last(self.src.seen(s))
+                ex.oblige(s, 'exit(raise): only the data source\'s own failure, or the enqueue error of the element in hand when exceptions are not returned -- after one item per earlier element, no end marker',
+                          z3.And(z3.Not(s.ghost['terminal_put']), z3.Or(z3.And(self.src.failed(s), s.ghost['puts'] == z3.Length(self.src.seen(s))),
+                                                                        z3.And(z3.Not(self.rexc), z3.Not(enq_ok(self.path, x)), p == enq_exc(self.path, x), s.ghost['puts'] == z3.Length(self.src.seen(s)) - 1))))
+
+
+class StreamConsume(Unit):
+    """SocketClient.stream (the generator): output #j is the outcome of element #j's own future, in input order; it ends normally only after the end
+    marker (every element answered) or on client shutdown; it raises only the feeder's failure or -- exceptions not returned -- element #j's own error."""
+    prop = 'C18'
+    file = F
+    qual = 'SocketClient.stream'
+    unreachable_ok = ('raise ValueError(',)       # defensive: unreachable under the feeder's contract (a feeder that ended without the end marker either failed or gave up on shutdown)
+    numeric_vals_are_ints = False
+    consumer_may_stop = False
+    expected_exits = ('normal', 'raise')
+    ignore_calls = ('logger.error',)
+    assumed_contracts = ('feeder guarantee: unit C18:SocketClient.stream.<locals>._enqueue', 'SingleLane FIFO: contracts/singlelane.py')
+    canaries = (('result paired with the previous input', '                    yield x, y', '                    yield prev_x if prev_x is not None else x, y\n                    prev_x = x', 'own input'),
+                ('feeder finished => stop, without looking at the queue again (the pinned-tree race)', '                    if not tasks.empty():\n', '                    if False:\n', ''),
+                ('exception swallowed', '                    logger.error(repr(e))\n                    raise', '                    continue', ''))
+
+    def setup(self, ex):
+        st = St()
+        self.path, self.data = z3.Const('path', Val), z3.Const('data', Val)
+        self.rx, self.rexc = z3.Bool('return_x'), z3.Bool('return_exceptions')
+        self.stop = Event(ex, 'to_shutdown')
+        self.stop.init(st)
+        st.ghost['nyield'] = z3.IntVal(0)
+        st.ghost['terminal_got'] = z3.BoolVal(False)
+        st.ghost['n_elems'] = z3.Int('n_elements')           # number of elements the feeder put before its end (defined by the feeder's history)
+        st.ghost['feeder_done_seen'] = z3.BoolVal(False)
+        self.f_failed = z3.Bool('feeder_failed')               # how the feeder ends (fixed by its own run): with an exception ...
+        self.f_exc = z3.Const('feeder_exception', Val)
+        self.f_gaveup = z3.Bool('feeder_gave_up')              # ... or having given up on shutdown (then the shutdown event is set) ... or after the end marker
+        st.assume(V.isinst(self.f_exc, 'Exception'), *V.cls_facts(self.f_exc), z3.Not(z3.And(self.f_failed, self.f_gaveup)), st.ghost['n_elems'] >= 0, V.is_ref(NOMORE))      # nomore = object()
+        self.made = {}
+        unit = self
+
+        def mkq(e, s, a, k, n):
+            q = QueueReader(e, 'tasks')
+            s = s.fork()
+            q.init(s)
+            self.made['q'] = q
+            return [('ok', s, q)]
+        ex.globals['SingleLane'] = Fn(mkq)
+        ex.globals['object'] = Fn(lambda e, s, a, k, n: [('ok', s, NOMORE)])
+
+        class TaskFut(Obj):
+            """the future of the feeder thread (executor.submit): done() is volatile until seen True"""
+
+            def havoc(self_, e, s):
+                pass
+
+            def m_done(self_, e, s, a, k, n):
+                d = fresh('feeder_done', z3.BoolSort())
+                s = s.fork().assume(z3.Implies(s.ghost['feeder_done_seen'], d))
+                s1 = s.fork().assume(d)
+                s1.ghost['feeder_done_seen'] = z3.BoolVal(True)
+                # a finished feeder that gave up did so because the shutdown event is set (unit _enqueue); the event is never cleared
+                if z3.is_true(z3.simplify(unit.f_gaveup)):
+                    pass
+                s1.assume(z3.Implies(unit.f_gaveup, unit.stop.get(s1, 'flag')))
+                s2 = s.fork().assume(z3.Not(d))
+                return [x for x in (('ok', s1, z3.BoolVal(True)), ('ok', s2, z3.BoolVal(False))) if e.feasible(x[1])]
+
+            def m_exception(self_, e, s, a, k, n):
+                e.oblige(s, f'line {n.lineno}: exception() is asked only of a finished feeder (it would block otherwise)', s.ghost['feeder_done_seen'])
+                s1 = s.fork().assume(unit.f_failed)
+                s2 = s.fork().assume(z3.Not(unit.f_failed))
+                return [x for x in (('ok', s1, unit.f_exc), ('ok', s2, NONE)) if e.feasible(x[1])]
+        self.t = TaskFut(ex, 'feeder_task')
+        st.ghost['submitted'] = ()
+
+        def submit(e, s, a, k, n):
+            from pyvc.core import Closure
+            s = s.fork()
+            tgt = unbox_handle(e, a[0])
+            e.oblige(s, f'line {n.lineno}: the feeder submitted is the local `_enqueue` (bound to this call\'s queue, marker, path and data)', z3.BoolVal(isinstance(tgt, Closure) and tgt.node.name == '_enqueue' and len(a) == 1 and not k))
+            s.ghost['submitted'] = s.ghost['submitted'] + (1,)
+            return [('ok', s, self.t)]
+        me = Rec(ex, 'self', immutable=True).init(st, _backlog=z3.Int('backlog'), _to_shutdown=self.stop, _executor=Rec(ex, 'executor', immutable=True, methods={'submit': Fn(submit)}),
+                                                  _tasks=Rec(ex, '_tasks', immutable=True, methods={'append': Nop()}))
+        st.env.update(self=me, path=self.path, data=self.data, return_x=self.rx, return_exceptions=self.rexc, enqueue_timeout=z3.Const('enqueue_timeout', Val), response_timeout=z3.Real('response_timeout'))
+        ex.globals['perf_counter'] = Fn(lambda e, s, a, k, n: [('ok', s, fresh('now', z3.RealSort()))])
+        ex.sym_models['fut'] = FutureSym('Exception')
+        return st
+
+    def on_binop(self, ex, st, op, a, b, node):
+        return [('ok', st, fresh('remaining_time', z3.RealSort()))]       # response_timeout - (perf_counter() - t0): only passed on as the wait limit
+
+    # rely on the feeder: item #k for k < n_elems; then (only if it neither failed nor gave up) the end marker at index n_elems
+    def on_get(self, ex, st, q, k, z, node):
+        ex.oblige(st, f'line {node.lineno}: no get after the end marker', z3.Not(st.ghost['terminal_got']))
+        n = st.ghost['n_elems']
+        f, t0 = fresh('f'), fresh('t0', z3.RealSort())
+        s1 = st.fork().assume(k < n, stream_item(k, z, f, V.realv(t0)), stream_fut_spec(self.path, s_src(k), f, self.rexc), z != NOMORE, *V.cls_facts(z))
+        s1.ghost['cur_f'] = f
+        s1.ghost['cur_k'] = k
+        s2 = st.fork().assume(k == n, z == NOMORE, z3.Not(self.f_failed), z3.Not(self.f_gaveup))
+        s2.ghost['terminal_got'] = z3.BoolVal(True)
+        return [s1, s2]
+
+    def on_empty(self, ex, st, q, b, node):
+        # asked after the feeder was SEEN finished: then all its puts are in the past, so "empty" is exact:
+        # empty <=> everything it put has been taken (n_elems items, plus the end marker unless it failed / gave up)
+        n = st.ghost['n_elems']
+        total = n + z3.If(z3.Or(self.f_failed, self.f_gaveup), 0, 1)
+        st.assume(z3.Implies(st.ghost['feeder_done_seen'], b == (q.nget(st) == total)), q.nget(st) <= total)
+
+    def omap(self, x, y):
+        return z3.If(self.rx, V.tup(V.seq_of([x, y])), y)
+
+    def on_yield(self, ex, st, val, node):
+        k = st.ghost['cur_k']
+        f = st.ghost['cur_f']
+        n = st.ghost['nyield']
+        y_ok = z3.And(fut_ok(f), val == self.omap(s_src(k), fut_val(f)))
+        y_exc = z3.And(z3.Not(fut_ok(f)), self.rexc, val == self.omap(s_src(k), fut_exc(f)))
+        ex.oblige(st, f'line {node.lineno}: output #k is produced exactly once, in input order', z3.And(n == k, k == self.made['q'].nget(st) - 1))
+        ex.oblige(st, f'line {node.lineno}: output #k is the outcome of element #k\'s own future (its exception object if exceptions are returned), paired with its own input if return_x', z3.Or(y_ok, y_exc))
+        st.ghost['nyield'] = n + 1
+
+    @property
+    def loops(self):
+        def inv(s, ex):
+            q = self.made['q']
+            return z3.And(q.nget(s) == s.ghost['nyield'], q.nget(s) <= s.ghost['n_elems'], z3.Not(s.ghost['terminal_got']), z3.BoolVal(len(s.ghost['submitted']) == 1))
+        return {0: LoopSpec(inv=inv, keep=('tasks', 'nomore', 't', '_enqueue'), keep_ghost=('n_elems', 'feeder_done_seen', 'submitted'))}
+
+    def post(self, ex, outs):
+        for k, s, p in outs:
+            q = self.made['q']
+            n = s.ghost['n_elems']
+            if k in ('normal', 'return'):
+                ex.oblige(s, 'exit: the stream ends normally only after the end marker -- one output per element, all of them -- or because the client is shutting down',
+                          z3.Or(z3.And(s.ghost['terminal_got'], s.ghost['nyield'] == n), self.stop.get(s, 'flag')))
+            else:
+                f = s.ghost.get('cur_f', NONE)
+                own = z3.And(z3.Not(self.rexc), z3.Not(fut_ok(f)), p == fut_exc(f), s.ghost['nyield'] == s.ghost.get('cur_k', z3.IntVal(-1))) if 'cur_f' in s.ghost else z3.BoolVal(False)
+                feeder = z3.And(self.f_failed, p == self.f_exc, s.ghost['nyield'] == n, s.ghost['feeder_done_seen'])
+                ex.oblige(s, 'exit(raise): only element #k\'s own error (exceptions not returned) after outputs 0..k-1, or the feeder\'s failure after EVERY element it had delivered was answered', z3.Or(own, feeder))
+
+
 class PipeInit(Unit):
     prop = 'C18'
     file = FP
@@ -656,7 +942,7 @@ class PipeClientInit(PipeInit):
     canaries = ()
 
 
-UNITS = [WriteRecord, ReadRecord, FramingLemma, ServerReceiving, ServerResponding, ClientReceiving, ClientSending, ClientEnqueue, ClientRequest, PipeInit, PipeClientInit]
-SCENARIOS = [('', 'replay/scenarios/c18_transports.py')]
+UNITS = [WriteRecord, ReadRecord, FramingLemma, ServerReceiving, ServerResponding, ClientReceiving, ClientSending, ClientEnqueue, ClientRequest, PutInQueue, StreamFeed, StreamConsume, PipeInit, PipeClientInit]
+SCENARIOS = [('SocketClient.stream', 'replay/scenarios/c18_stream_poll_race.py'), ('', 'replay/scenarios/c18_transports.py')]
 BOUNDED = [{'function': 'OS byte stream, asyncio task scheduling, multiprocessing.Connection over FIFOs', 'method': 'runtime scenario replay/scenarios/c18_transports.py', 'bound': '19 payload shapes up to 3 MiB, 120 concurrent requesters on 2 connections, 40 x 200 KB back-to-back, 3 timeout/id-reuse rounds, 200 pipe round trips', 'counted_as_proved': False}]
 THOROUGH_SCENARIOS = [('', 'replay/scenarios/c18_transports.py', (1,), 400), ('', 'replay/scenarios/c18_transports.py', (7,), 400)]
